@@ -141,7 +141,7 @@ let proj_pset (p : pset) : string =
   Printf.sprintf "g:%d.%d.%s.%s.%s.lt%d|%s|%s|rt:%s" (ni p.g_nin) (ni p.g_nout) flags fb sc (ni (locktime p))
     (Stdlib.String.concat ";" (zip p.p_cores p.p_auxs))
     (Stdlib.String.concat ";" (Stdlib.List.map proj_output p.p_outs))
-    (if rt p then "same" else "fail")
+    (match rt_class p with RtSame -> "same" | RtDiff -> "diff" | RtFail -> "fail")
 
 let cmd_hist t =
   let ins = next_list t read_inarg in
